@@ -21,6 +21,9 @@
 (*              lengths 00, 01, 09, 7F, 80 00, 80 FF, BF FF, C1, C4, FF - a   *)
 (*              decoder taking the extension path reads them as the length; *)
 (*              and the input is cut right behind the field start            *)
+(*   Open       container-consistent faults (see OpenCases): the contents of *)
+(*              one open type are corrupted and the PDU re-encoded around    *)
+(*              them with Per.tla, so all enclosing lengths are consistent   *)
 (* The cases are written as ndjson for the replayer (rec-total -replay).     *)
 (***************************************************************************)
 EXTENDS Per, Json
@@ -68,9 +71,35 @@ FieldCases(s) ==
                     \* a run of fragment headers in front of a length determinant: a decoder that adds up fragment sizes before it reads
                     \* any content allocates 64K units per input octet
                     \cup {Case(s, "lenrun" \o ToString(k), i, SubSeq(b, 1, i - 1) \o Tup([j \in 1..k |-> 196]) \o SubSeq(b, i, n)) : i \in lens, k \in {4, 64}})
+\* container-consistent faults: the contents of one open type (the message body, the value of one IE, an embedded list item
+\* container) are corrupted and the whole PDU is re-encoded around them, so that every enclosing length is right and the decoder
+\* gets as far as the corrupted field:  contents cut at a field start; a field start octet set to 0x80 / 0xFF followed by an adversarial
+\* length; the contents' own length determinants driven to extremes or preceded by a run of fragment headers; octets appended
+InnerBudget == IF Budget >= 100 THEN 24 ELSE 6
+PickN(q, n) == IF Len(q) <= n THEN {q[i] : i \in 1..Len(q)} ELSE {q[1 + ((k - 1) * Len(q)) \div n] : k \in 1..n}
+InnerTails == << <<0>>, <<9>>, <<128, 0>>, <<255>> >>
+OpenCases(s) ==
+   IF "tree" \notin DOMAIN s THEN <<>>
+   ELSE LET paths == OpenPaths(s.tree, <<>>) IN
+        SetToSeq(UNION {
+           LET p == paths[pi]
+               v == NodeAt(s.tree, p).v
+               mk == PerMarks(PerEmpty, v, 0)
+               ib == PerComplete(mk.s)
+               n == Len(ib)
+               octs == PickN(Sorted({(q \div 8) + 1 : q \in {x \in mk.m : x < 8 * n}}), InnerBudget)
+               lens == {(q \div 8) + 1 : q \in {x \in mk.ln : x < 8 * n}}
+               Re(kind, i, raw) == Case(s, "open" \o ToString(pi) \o kind, i, PerEncode(SetRawAt(s.tree, p, raw)))
+           IN {Re("cut", i, SubSeq(ib, 1, i - 1)) : i \in octs}
+              \cup {Re("cutafter", i, SubSeq(ib, 1, i)) : i \in octs}
+              \cup {Re("start" \o ToString(h) \o "x" \o ToString(t), i, Overwrite(ib, i, <<h>> \o InnerTails[t])) : i \in octs, h \in {128, 255}, t \in 1..Len(InnerTails)}
+              \cup {Re("len" \o ToString(t), i, Overwrite(ib, i, LenTails[t])) : i \in lens, t \in 1..Len(LenTails)}
+              \cup {Re("lenrun" \o ToString(k), i, SubSeq(ib, 1, i - 1) \o Tup([j \in 1..k |-> 196]) \o SubSeq(ib, i, n)) : i \in lens, k \in {4, 64}}
+              \cup {Re("append", n, ib \o <<255>>), Re("empty", 0, <<>>)}
+           : pi \in 1..Len(paths)})
 Init == l = 1 /\ out = 0
 Next == /\ l <= Len(Seeds)
-        /\ LET cs == CasesOf(Seeds[l]) \o FieldCases(Seeds[l]) IN
+        /\ LET cs == CasesOf(Seeds[l]) \o FieldCases(Seeds[l]) \o OpenCases(Seeds[l]) IN
              /\ ndJsonSerialize(OutPath \o "." \o ToString(l), cs)
              /\ out' = out + Len(cs)
         /\ l' = l + 1
